@@ -559,3 +559,13 @@ def _norm_callee(n):
     n = re.sub(r'cmp::\{closure#\d+\}', 'cmp::{closure}', n)
     n = n.replace('alloc::borrow::Cow<', 'OWNED<').replace("'a, ", '').replace("'_, ", '')
     return n
+
+
+_run_before_scope_rule = run
+
+
+def run(ctx):
+    _run_before_scope_rule(ctx)
+    # the comparison of two terms depends on the two terms only: state a comparison keeps on the thread is put back on every way out
+    from .c15 import scoped_thread_local_restored
+    scoped_thread_local_restored(ctx, 'C11.7-scoped-state-restored')
